@@ -6,7 +6,7 @@ Open Scope N_scope.
 (** For every run of the muxer model that returns [Ok] (no size bound is needed here):
     - every track's tables pass the independent validator [track_tables_ok] for exactly the accepted samples
       and their summed duration; mdhd duration = summed duration; tkhd duration = floor(mdhd * movie timescale
-      / track timescale), saturated at u64::MAX ([tkhd_of]);
+      / track timescale), saturated at u64::MAX ([tkhd_sat]);
     - every chunk extent of every track lies inside the mdat payload [mdat_pos + 16, end of output];
     - the chunk extents of all tracks are pairwise disjoint;
     - mvhd duration = the largest tkhd duration. *)
@@ -17,7 +17,7 @@ Definition C02_statement : Prop := forall m base cfg ops cls f,
      track_tables_ok (tf_tables tf) (lenN ss) (sumN (map ws_duration ss)) = true /\
      wh_mdhd_duration (tf_hdr tf) = sumN (map ws_duration ss) /\
      wh_tkhd_duration (tf_hdr tf) =
-       tkhd_of (wh_mdhd_duration (tf_hdr tf)) (mf_mvhd_timescale f) (tc_timescale (tf_conf tf))) /\
+       tkhd_sat (wh_mdhd_duration (tf_hdr tf)) (mf_mvhd_timescale f) (tc_timescale (tf_conf tf))) /\
   forallb (forallb (within (mf_mdat_pos f + 16) (mf_base f + lenN (mf_out f)))) (map track_extents (mf_tracks f)) = true /\
   pairwise_disjoint (concat (map track_extents (mf_tracks f))) = true /\
   mf_mvhd_duration f = fold_left N.max (map (fun tf => wh_tkhd_duration (tf_hdr tf)) (mf_tracks f)) 0.
